@@ -70,6 +70,14 @@ CYCLE_SCRIPTS = {
 }
 
 
+CYCLE_SCRIPTS['recfun'] = ('(declare-const a Int)'
+                           '(define-fun f ((x Int)) Int (f x))'
+                           '(assert (> (f a) 0))(check-sat)')
+CYCLE_SCRIPTS['elim3'] = ('(declare-const x Int)'
+                          '(assert (= x (+ (* x 2) 1)))(check-sat)')
+DEPTH3 = ['elim3', 'eq0', 'recfun']     # small scripts: also 3-step chains
+
+
 class TooSlow(BaseException):
     pass
 
@@ -154,6 +162,7 @@ def run_pairs(name, lo, hi):
     first = _proposals(exprs, muts)
     n = 0
     bad = None
+    seen2 = {t_orig}
     for k, (d1, t1, r1) in enumerate(first):
         if t1 == 'HANG':
             if bad is None:
@@ -177,6 +186,18 @@ def run_pairs(name, lo, hi):
                 bad = ({'script': name, 'first': k, 'second': j},
                        f'2-cycle: {t_orig!r} --[{d1}]--> {t1!r} --[{d2}]--> '
                        f'back to the start')
+            if name in DEPTH3 and t2 not in seen2 and r2 is not None \
+                    and bad is None:
+                seen2.add(t2)
+                r2 = nodes.reduplicate(r2)
+                for (d3, t3, r3) in _proposals(r2, muts):
+                    n += 1
+                    if t3 == t_orig:
+                        bad = ({'script': name, 'first': k, 'second': j},
+                               f'3-cycle: {t_orig!r} --[{d1}]--> {t1!r} '
+                               f'--[{d2}]--> {t2!r} --[{d3}]--> back to the '
+                               f'start')
+                        break
         if bad:
             break
     return {'status': 'VIOLATED' if bad else 'CONFIRMED',
